@@ -1,6 +1,7 @@
 """C04 — CRT lift (gmp.hpp): streams, directed search, trusted base."""
 import os
 import checklib as cl
+import _setmpz_common as _sm
 
 try:
     import props as _props
@@ -17,8 +18,9 @@ def translators(repo):
     """source-level tie of the CRT code: Generated/CrtAst.lean is re-translated from clang's AST of gmp.hpp (GMP::GMP(),
     GMP::poly2mpz(array&, poly const&), GMP::mpz2poly; get_modulus / operator()(cm,i) of poly.hpp inlined; static_log2 of meta.hpp)
     on every run, every GMP call mapped by name through Model/GmpSem.lean; the equalities with the hand model
-    (Proofs/CrtAstEq.lean) and the transported C04 statements (Properties/C04Ast.lean) are then re-checked by `lake build`.
-    set_mpz(It,It) and its forwarding overloads stay hand-modelled."""
+    (Proofs/CrtAstEq.lean, Proofs/CrtAstEq2.lean: mpz2poly_uW = Crt.mpz2poly for all inputs) and the transported C04 statements
+    (Properties/C04Ast.lean, Properties/C04Ast2.lean: the round trips of the generated pair) are then re-checked by `lake build`.
+    set_mpz(It,It) and its forwarding overloads / constructors: tools/gen_setmpz_ast.py (see _setmpz_common.py)."""
     import json
     r = cl.run(["python3", os.path.join(cl.HERE, "gen_crt_ast.py"), "--repo", repo])
     info = {"ok": r.returncode == 0}
@@ -31,7 +33,9 @@ def translators(repo):
         except Exception as e:
             info["ok"] = False
             info["err"] = "unparsable summary: %s" % e
-    return {"gen_crt_ast": info}
+    out = {"gen_crt_ast": info}
+    out.update(_sm.translators_setmpz(repo))
+    return out
 
 
 CRT_AST_TB = ("source-level tie of GMP::GMP(), GMP::poly2mpz(array&, poly const&) (and the translation of GMP::mpz2poly): clang++-14's typed AST "
@@ -122,6 +126,7 @@ PROP = {
              "x = z mod Q; X = (A o B) mod Q; C = schoolbook negacyclic product of A, B over Z_Q). distinct = distinct op lines, all non-trivial."),
     "trusted_base": COMMON_TB + [
         CRT_AST_TB,
+        _sm.SETMPZ_AST_TB,
         "GMP is a contract: mpz_t values are mathematical integers; mpz_mul/_ui, mpz_addmul_ui, mpz_submul, mpz_sub, mpz_tdiv_q(_2exp), mpz_divexact, mpz_cmp are exact; "
         "mpz_sizeinbase(x,2) is the bit length; mpz_fdiv_ui(z,p) is the floor remainder in [0,p); mpz_invert(a,p) returns the inverse in [0,p) when gcd(a,p)=1 "
         "(theorems are stated for ANY function with that contract; the extended-Euclid model is proved to meet it). mpz_init2 sizes are allocation hints only.",
@@ -132,7 +137,7 @@ PROP = {
     "assumptions": [
         "inputs of poly2mpz are canonical (every word of slice cm is < p_cm) — the library's own invariant (C02/C09)",
         "NbModuli >= 1 (static_log2<0> has no value: NbModuli = 0 does not compile) and NbModuli <= kMaxNbModuli of the limb type",
-        "source-level tie (C04Ast): 1 <= NbModuli < 2^64, bits(Q)+w+floor(log2 m)+1 < 2^64 and NbModuli*Degree < 2^64 (no size_t wrap; proved from p <= 2^w, w <= 64, m <= 2^32 in C04Ast.ctorFits_of_small); words of the polynomial are values of T; set_mpz and the equality mpz2poly_uW = Crt.mpz2poly are NOT covered by the source-level tie (differential stream only)",
+        "source-level tie (C04Ast): 1 <= NbModuli < 2^64, bits(Q)+w+floor(log2 m)+1 < 2^64 and NbModuli*Degree < 2^64 (no size_t wrap; proved from p <= 2^w, w <= 64, m <= 2^32 in C04Ast.ctorFits_of_small); words of the polynomial are values of T; mpz2poly_uW = Crt.mpz2poly additionally needs 0 < p <= 2^w for the 16/32-bit instantiations (conversion of the remainder); generated set_mpz = Crt.setMpz needs 0 < p < 2^w, an object of n*m words and a valid iterator range first <= last <= length (C04Ast2 / C15MpzAst); poly::operator=(mpz…) of poly.hpp is not translated (differential stream only)",
         "set_mpz / constructor from std::array<mpz_t,Degree> are uninstantiable in the library (set_mpz(It,It) calls viter->get_mpz_t() on an mpz_t): compile error, outside the run-time property",
     ],
 }
